@@ -763,29 +763,33 @@ func runFormatKeyOrder(c *Ctx) {
 				name string
 				r    int
 			}{{"<", -1}, {"==", 0}, {">", 1}} {
-				as := okAssume(fn, cs.T, &rel.r, 0)
-				reach := as.reach(cs.Body)
 				sub := construct + " " + rel.name
-				if open := as.open(reach); len(open) > 0 {
-					c.Undecided(fn, fxValPos(c.P, open[0], fn), sub, "comparison not decided by the rule: "+ir.Sym(open[0]))
+				res := orderedResults(c, fn, func(v ssa.Value) string { return sideOf(fn, v) }, cs.Body, cs.T, rel.r, 0)
+				if res.undecided != "" {
+					c.Undecided(res.inFn, res.pos, sub, res.undecided)
 					continue
 				}
-				rets := successIn(fn, reach)
-				if len(rets) == 0 {
+				if len(res.leaves) == 0 {
 					c.Violation(fn, pos, sub, fmt.Sprintf("for v %s v2 the %s case no longer returns a result", rel.name, name))
 					continue
 				}
 				bad := false
-				for _, r := range rets {
-					for _, l := range as.leaves(r.Results[0], reach) {
-						if !fxIsIntConst(l, int64(rel.r)) {
-							bad = true
-							c.Violation(fn, c.P.InstrPos(r), sub, fmt.Sprintf("for v %s v2 the %s case returns %s; the published order returns %d (the default order of %s keys is inverted or collapsed)", rel.name, name, ir.Sym(l), rel.r, name))
+				for _, l := range res.leaves {
+					if !fxIsIntConst(l.val, int64(rel.r)) {
+						bad = true
+						via := ""
+						if l.fn != fn {
+							via = " (through " + l.via + ")"
 						}
+						c.Violation(fn, c.P.InstrPos(l.at), sub, fmt.Sprintf("for v %s v2 the %s case returns %s%s; the published order returns %d (the default order of %s keys is inverted or collapsed)", rel.name, name, ir.Sym(l.val), via, rel.r, name))
 					}
 				}
 				if !bad {
-					c.OK(pos, sub, fmt.Sprintf("returns %d", rel.r), false)
+					why := fmt.Sprintf("returns %d", rel.r)
+					if v := res.leaves[0].via; v != "" {
+						why += " through " + v
+					}
+					c.OK(pos, sub, why, false)
 				}
 			}
 		}
@@ -821,6 +825,93 @@ func runFormatKeyOrder(c *Ctx) {
 	}
 }
 
+// fxOwnFunc: f (or the generic function it instantiates) is a function of
+// package mast with a body.
+func fxOwnFunc(f *ssa.Function) bool {
+	if f == nil || f.Blocks == nil {
+		return false
+	}
+	o := f
+	if f.Origin() != nil {
+		o = f.Origin()
+	}
+	return o.Pkg != nil && o.Pkg.Pkg.Path() == ir.MastPath
+}
+
+type orderedLeaf struct {
+	val ssa.Value
+	at  ssa.Instruction
+	fn  *ssa.Function
+	via string // helper chain, "" when the result is produced in the comparator itself
+}
+
+type orderedRes struct {
+	leaves    []orderedLeaf
+	undecided string
+	pos       string
+	inFn      *ssa.Function
+}
+
+// orderedResults evaluates what fn returns from block `from` when the first
+// operand (values of side "L") relates to the second ("R") as rel (-1,0,1).
+// A result that is the value of a static in-repo helper (possibly a generic
+// instantiation) applied to one L and one R operand is followed into the
+// helper (depth ≤ 2) with its parameters mapped to the operands in argument
+// order — so a helper called with swapped arguments evaluates with the
+// relation inverted.
+func orderedResults(c *Ctx, fn *ssa.Function, side func(ssa.Value) string, from *ssa.BasicBlock, T types.Type, rel int, depth int) orderedRes {
+	as := okAssumeSides(fn, side, T, &rel, 0)
+	reach := as.reach(from)
+	res := orderedRes{inFn: fn, pos: c.P.Pos(fn.Pos())}
+	if open := as.open(reach); len(open) > 0 {
+		res.undecided = "comparison not decided by the rule: " + ir.Sym(open[0])
+		res.pos = fxValPos(c.P, open[0], fn)
+		return res
+	}
+	for _, r := range successIn(fn, reach) {
+		if len(r.Results) == 0 {
+			continue
+		}
+		for _, l := range as.leaves(r.Results[0], reach) {
+			call, callee := fxCallee(fxStripNoConv(l))
+			if callee != nil && fxOwnFunc(callee) && depth < 2 && len(call.Call.Args) == 2 && len(callee.Params) == 2 {
+				s0, s1 := side(call.Call.Args[0]), side(call.Call.Args[1])
+				if s0 != "" && s1 != "" && s0 != s1 {
+					p0, p1 := callee.Params[0], callee.Params[1]
+					sub := orderedResults(c, callee, func(v ssa.Value) string {
+						switch fxStripNoConv(v) {
+						case ssa.Value(p0):
+							return s0
+						case ssa.Value(p1):
+							return s1
+						}
+						return ""
+					}, callee.Blocks[0], nil, rel, depth+1)
+					if sub.undecided != "" {
+						return sub
+					}
+					if len(sub.leaves) == 0 {
+						res.undecided = "helper " + callee.Name() + " returns nothing the rule can evaluate"
+						res.pos = c.P.InstrPos(call)
+						return res
+					}
+					for _, sl := range sub.leaves {
+						v := callee.Name() + "(" + map[string]string{"L": "v", "R": "v2"}[s0] + ", " + map[string]string{"L": "v", "R": "v2"}[s1] + ")"
+						if sl.via != "" {
+							v += " → " + sl.via
+						}
+						sl.via = v
+						res.leaves = append(res.leaves, sl)
+					}
+					continue
+				}
+			}
+			res.leaves = append(res.leaves, orderedLeaf{val: l, at: r, fn: fn})
+		}
+	}
+	return res
+}
+
 // marshalledSide: v is result #0 of a call of the captured marshaler on one of
 // fn's parameters.
 func marshalledSide(fn *ssa.Function, v ssa.Value) string {
@@ -849,10 +940,18 @@ func marshalledSide(fn *ssa.Function, v ssa.Value) string {
 // the relation of the first to the second asserted value; mode 1 = fallback
 // path (dynamic types equal, no marshal error).
 func okAssume(fn *ssa.Function, T types.Type, rel *int, mode int) *fxAssume {
+	return okAssumeSides(fn, func(v ssa.Value) string { return sideOf(fn, v) }, T, rel, mode)
+}
+
+// okAssumeSides is okAssume with the classification of values into first
+// ("L") / second ("R") operand supplied by the caller, so that the same
+// evaluation can run inside a helper whose parameters are mapped to the
+// comparator's arguments.
+func okAssumeSides(fn *ssa.Function, side func(ssa.Value) string, T types.Type, rel *int, mode int) *fxAssume {
 	return &fxAssume{
 		decide: func(cond ssa.Value) (bool, bool) {
 			if e, ok := cond.(*ssa.Extract); ok && e.Index == 1 {
-				if ta, ok := e.Tuple.(*ssa.TypeAssert); ok && T != nil && fxStripNoConv(ta.X) == ssa.Value(fn.Params[1]) && types.Identical(ta.AssertedType, T) {
+				if ta, ok := e.Tuple.(*ssa.TypeAssert); ok && T != nil && len(fn.Params) > 1 && fxStripNoConv(ta.X) == ssa.Value(fn.Params[1]) && types.Identical(ta.AssertedType, T) {
 					return true, true
 				}
 			}
@@ -877,7 +976,7 @@ func okAssume(fn *ssa.Function, T types.Type, rel *int, mode int) *fxAssume {
 			if rel == nil {
 				return false, false
 			}
-			sx, sy := sideOf(fn, bin.X), sideOf(fn, bin.Y)
+			sx, sy := side(bin.X), side(bin.Y)
 			r := *rel
 			if sx == "R" && sy == "L" {
 				r = -r
@@ -905,7 +1004,7 @@ func okAssume(fn *ssa.Function, T types.Type, rel *int, mode int) *fxAssume {
 			if !ok || rel == nil {
 				return false
 			}
-			return sideOf(fn, bin.X) != "" || sideOf(fn, bin.Y) != ""
+			return side(bin.X) != "" || side(bin.Y) != ""
 		},
 	}
 }
@@ -932,6 +1031,10 @@ func successIn(fn *ssa.Function, reach map[*ssa.BasicBlock]bool) []*ssa.Return {
 // counts how often its second parameter divides its first. It returns a list
 // of violations (recognised slot, wrong content) and of undecided slots.
 func layerLoopCheck(fn *ssa.Function) (viol, und []string) {
+	return layerLoopCheckDepth(fn, 0)
+}
+
+func layerLoopCheckDepth(fn *ssa.Function, depth int) (viol, und []string) {
 	if len(fn.Params) != 2 {
 		return nil, []string{"not a two-parameter function"}
 	}
@@ -939,6 +1042,21 @@ func layerLoopCheck(fn *ssa.Function) (viol, und []string) {
 	rets := ir.Returns(fn)
 	if len(rets) != 1 || len(rets[0].Results) != 1 {
 		return nil, []string{"more than one return"}
+	}
+	// a wrapper around a shared (possibly generic) loop function: follow it,
+	// provided the value and the branch factor are passed on unchanged
+	if call, callee := fxCallee(fxStripNoConv(rets[0].Results[0])); callee != nil && fxOwnFunc(callee) && depth < 2 {
+		if len(call.Call.Args) == 2 && fxStripNoConv(call.Call.Args[0]) == ssa.Value(v0) && fxStripNoConv(call.Call.Args[1]) == ssa.Value(bf) {
+			v, u := layerLoopCheckDepth(callee, depth+1)
+			for i := range v {
+				v[i] = "via " + callee.Name() + ": " + v[i]
+			}
+			for i := range u {
+				u[i] = "via " + callee.Name() + ": " + u[i]
+			}
+			return v, u
+		}
+		return []string{"the layer is " + callee.Name() + "(" + ir.Sym(call.Call.Args[0]) + ", " + ir.Sym(call.Call.Args[1]) + "), not the divisibility count of (v, branchFactor)"}, nil
 	}
 	layer, ok := rets[0].Results[0].(*ssa.Phi)
 	if !ok {
@@ -1075,7 +1193,7 @@ func blobLayerCheck(c *Ctx, fn *ssa.Function, unsignedFn *ssa.Function, depth in
 	if fxStripNoConv(call.Call.Args[1]) != ssa.Value(fn.Params[1]) {
 		return "the branch factor passed on is not the function's own parameter"
 	}
-	if callee == unsignedFn {
+	if callee == unsignedFn || isUnsignedLayerFn(callee) {
 		sum, sc := fxCallee(call.Call.Args[0])
 		if sc == nil || fxFullName(sc) != "hash/crc64.Checksum" {
 			return "the unsigned layer function is not applied to crc64.Checksum(...)"
@@ -1089,13 +1207,26 @@ func blobLayerCheck(c *Ctx, fn *ssa.Function, unsignedFn *ssa.Function, depth in
 		}
 		return ""
 	}
-	if callee.Pkg == nil || callee.Pkg.Pkg.Path() != ir.MastPath {
+	if !fxOwnFunc(callee) {
 		return "calls " + fxFullName(callee)
 	}
 	if fxStrip(call.Call.Args[0]) != ssa.Value(fn.Params[0]) {
 		return "the key bytes passed on are not the function's own parameter"
 	}
 	return blobLayerCheck(c, callee, unsignedFn, depth+1)
+}
+
+// isUnsignedLayerFn: f is a func(uint64, uint) uint8 of the repository that
+// passes the divisibility-loop check (directly or through a shared helper).
+func isUnsignedLayerFn(f *ssa.Function) bool {
+	if !fxOwnFunc(f) || f.Signature.Params().Len() != 2 || f.Signature.Results().Len() != 1 {
+		return false
+	}
+	if fxTypeString(f.Signature.Params().At(0).Type()) != "uint64" || fxTypeString(f.Signature.Params().At(1).Type()) != "uint" || fxTypeString(f.Signature.Results().At(0).Type()) != "uint8" {
+		return false
+	}
+	v, u := layerLoopCheck(f)
+	return len(v)+len(u) == 0
 }
 
 func runFormatLayer(c *Ctx) {
